@@ -71,7 +71,7 @@ def r2(fx):
                  got=f'truncation before: {bool(doms)}; {ast.unparse(st)[:80]}', want='scale = int(scale); width, height, border = _valid_width_height_and_border(matrix_size, scale, border)')
 
 
-@rule('C09', 'R4', 17, 'PNG: signature, chunk = len|type+data|crc, IHDR fields, bit depth table, scanline packing, border and repetition')
+@rule('C09', 'R4', 18, 'PNG: signature, chunk = len|type+data|crc, IHDR fields, bit depth table, scanline packing, border and repetition')
 def r4(fx):
     fn = fx.fn('writers', 'write_png')
     it = Interp(max_steps=20_000_000)
@@ -87,6 +87,14 @@ def r4(fx):
     kinds = [ev.ev(c.args[0].args[0], {}) for c in writes[1:] if isinstance(c.args[0], ast.Call)]
     yield ob('chunk order IHDR [pHYs] [PLTE [tRNS]] [tRNS] IDAT IEND', kinds == [b'IHDR', b'pHYs', b'PLTE', b'tRNS', b'tRNS', b'tRNS', b'IDAT', b'IEND'], w,
              got=kinds, want='IHDR pHYs PLTE tRNS tRNS tRNS IDAT IEND')
+    want_guards = {0: 'True', 1: 'True', 2: 'dpi', 3: 'not (is_greyscale)', 4: 'not (is_greyscale) and len(palette[0]) > 3',
+                   5: 'not (is_greyscale) and not (len(palette[0]) > 3) and is_transparent', 6: 'not (not is_greyscale) and is_transparent',
+                   7: 'True', 8: 'True'}
+    got_guards = {i: nf.guard_text([g for g in nf.guards_of(c, fn)]).replace('not (not is_greyscale)', 'not (not is_greyscale)') for i, c in enumerate(writes)}
+    norm = lambda t: t.replace('not is_greyscale', 'not (is_greyscale)') if t != 'True' else t   # noqa: E731
+    okg = len(writes) == 9 and all(norm(got_guards[i]).replace('not (not (is_greyscale))', 'not (not is_greyscale)') == want_guards[i] for i in range(9))
+    yield ob('each chunk is written under its own condition only (pHYs: dpi; PLTE: palette image; tRNS: alpha / transparency)', okg, w,
+             got=got_guards, want=want_guards)
     ch = FuncVal(fx.fn('writers', 'write_png.chunk'), genv, it)
     bad = []
     for name, data in ((b'IHDR', b'\x00\x01abc'), (b'IEND', b''), (b'IDAT', bytes(range(40)))):
@@ -317,3 +325,69 @@ def r3(fx):
     for o in p14.r8(fx):
         if 'validates scale and border' in o.key or '_valid_width_height_and_border' in o.key:
             yield o
+
+
+def _png_prefix(fx, it, dark, light, **per_type):
+    """Interpret the part of write_png before the output block for one colour configuration (no matrix involved)."""
+    fn = fx.fn('writers', 'write_png')
+    genv = callable_env(fx.forest, 'writers', it, {'pack': struct.pack, 'zlib': _Z(), 'reduce': __import__('functools').reduce})
+    mk = genv['_make_colormap']
+    cm = mk(21, 21, dark=dark, light=light, **per_type)
+    w = [i for i, s in enumerate(fn.body) if isinstance(s, ast.With)]
+    need(len(w) == 1, 'write_png: output block')
+    e = dict(genv, matrix=[[0] * 21 for _ in range(21)], matrix_size=(21, 21), out='<out>', colormap=cm, scale=1, border=0, compresslevel=9, dpi=None)
+    e['matrix_iter_verbose'] = lambda *a, **k: []
+    it.block(fn.body[:w[0]], e)
+    return cm, e
+
+
+@rule('C09', 'R9', 30, 'PNG palette: entries pairwise distinct, every module type indexes its own colour, alpha kept, transparent entry really transparent')
+def r9(fx):
+    fn = fx.fn('writers', 'write_png')
+    it = Interp(max_steps=20_000_000)
+    qz, dk = C(fx, 'TYPE_QUIET_ZONE'), C(fx, 'TYPE_FINDER_PATTERN_DARK')
+    darks = ['#000', 'aliceblue', '#f0f8ff', (240, 248, 255), (255, 0, 0, 128), 'antiquewhite']
+    lights = [None, '#fff', 'aliceblue', (0, 0, 255, 64)]
+    extras = [{}, {'finder_dark': (255, 0, 0, 128)}, {'finder_dark': 'red', 'data_light': None}, {'timing_dark': 'aliceblue'}]
+    for d in darks:
+        for l in lights:
+            for ex in extras:
+                if d is None and l is None:
+                    continue
+                key = f'PNG dark={d!r} light={l!r} {ex}'
+                try:
+                    cm, e = _png_prefix(fx, it, d, l, **ex)
+                except PyRaise as exn:
+                    yield ob(key, False, fn, got=f'raises {exn.name}', want='a palette')
+                    continue
+                pal, clr_map, ci = e['palette'], e['clr_map'], e['color_index']
+                grey, tidx = e['is_greyscale'], e['png_trans_idx']
+                probs = []
+                if len({tuple(c) for c in pal}) != len(pal):
+                    probs.append(f'palette entries collide: {pal}')
+                lens = [len(c) for c in pal]
+                if not grey and lens != sorted(lens, reverse=True):
+                    probs.append(f'RGBA entries are not first: {pal}')
+                # what each type will be painted with
+                multi = set(ci) >= set(cm)
+                for t, colour in cm.items():
+                    if not multi and t not in (qz, dk):
+                        continue
+                    idx = ci[t] if multi else (ci[0] if t == qz else ci[1])
+                    entry = pal[idx]
+                    if colour is None:
+                        transparent = (len(entry) == 4 and entry[3] == 0) or (len(entry) == 3 and tidx == idx) or (grey and tidx == idx)
+                        if not transparent:
+                            probs.append(f'type {t}: transparent requested, palette[{idx}] = {entry}, tRNS index {tidx}')
+                        others = [i for i, c in enumerate(pal) if i != idx and tuple(c[:3]) == tuple(entry[:3]) and len(c) == len(entry)]
+                        if others:
+                            probs.append(f'type {t}: transparent entry {entry} equals another palette colour')
+                    else:
+                        want = e['png_color'](colour)
+                        if tuple(entry) != tuple(want) and not (grey and tuple(entry[:3]) == tuple(want[:3])):
+                            probs.append(f'type {t}: colour {colour!r} painted with palette[{idx}] = {entry}, expected {want}')
+                        if not grey and len(want) == 4 and (len(pal[0]) < 4):
+                            probs.append(f'type {t}: alpha of {want} lost (first palette entry {pal[0]} decides the tRNS form)')
+                if len(pal) > 2 ** e['png_bit_depth']:
+                    probs.append(f'{len(pal)} colours in bit depth {e["png_bit_depth"]}')
+                yield ob(key, not probs, fn, got='; '.join(probs[:3]) or 'consistent', want='consistent')
